@@ -139,6 +139,12 @@ def zoo_specs(tier, prop):
                 if d >= 2:
                     specs.append(dict(cls='UnitCubeEllipsoidMixture', d=d, family=fam, enlarge=e,
                                       n=max(3 * d + 4, 12)))
+    # mixtures rebuilt from the cube (second construction path of UnitCubeEllipsoidMixture.compute)
+    for d in (3, 4):
+        for e in (1.1, 2.0):
+            specs.append(dict(cls='UnitCubeEllipsoidMixture', d=d, family='ringwide', enlarge=e, n=120))
+    specs.append(dict(cls='Union', member='UnitCubeEllipsoidMixture', unit=True, family='ringwide', d=3,
+                      n=120, enlarge=2.0, depth=3 if quick else 5, npm=5))
     # unions: explored through split/trim histories
     for cls in ('Ellipsoid', 'UnitCubeEllipsoidMixture'):
         for unit in (True, False):
